@@ -1,4 +1,4 @@
-import sys, time; sys.path.insert(0,'/verif')
+import os, sys, time; sys.path.insert(0,'/verif')
 import z3
 from pyvc import cli, inst, verify
 from pyvc.values import has_quant
@@ -13,7 +13,7 @@ def dbg(hyps, goal, axioms=(), timeout_ms=10000, want_model=True):
     bad=0
     for g in goals:
         t=time.time()
-        r = inst.pointwise_check(qf, qh, g, axioms, 5000)
+        r = inst.pointwise_check(qf, qh, g, axioms, 20000, rounds=int(os.environ.get("ROUNDS","1")))
         if r!='unsat':
             bad+=1
             gg=g
